@@ -6,7 +6,8 @@
 (*   dial    : client configuration x scripted response, with the client's     *)
 (*             verdict and whether permessage-deflate is then in use           *)
 (*   session : library client x library server (configuration, origin), with   *)
-(*             whether the session comes up and whether both compress          *)
+(*             whether the session comes up and whether both compress, once    *)
+(*             with the client and once with the server sending data first     *)
 EXTENDS WsHandshake, Json
 
 GenConn == {<<"Upgrade">>, <<"upgrade">>, <<"keep-alive", "Upgrade">>, <<"keep-alive">>, <<>>}
@@ -36,9 +37,13 @@ Emit ==
                                   accepts |-> ClientAccepts(resp, req.key),
                                   z |-> (ClientAccepts(resp, req.key) /\ resp.ext # NoExt)])>>)
     [] pc = "done" /\ Lib /\ req.key = "k1" ->
-         PrintT(<<"CASE", ToJson([kind |-> "session", client |-> [compress |-> ccfg.compress, origin |-> req.origin],
-                                  server |-> [compress |-> scfg.compress, policy |-> scfg.policy],
-                                  up |-> (cconn.up /\ sconn.up), status |-> resp.status,
-                                  z |-> (cconn.up /\ cconn.z)])>>)
+         \* once the handshake is done either end may send at once (RFC 6455 4.2.2, 5.1): in one variant the
+         \* client speaks first, in the other the server's first frames travel right behind its 101 response
+         \A first \in {"client", "server"} :
+           PrintT(<<"CASE", ToJson([kind |-> "session", first |-> first,
+                                    client |-> [compress |-> ccfg.compress, origin |-> req.origin],
+                                    server |-> [compress |-> scfg.compress, policy |-> scfg.policy],
+                                    up |-> (cconn.up /\ sconn.up), status |-> resp.status,
+                                    z |-> (cconn.up /\ cconn.z)])>>)
     [] OTHER -> TRUE
 =============================================================================
